@@ -73,7 +73,7 @@ def gen_design(r, cfg):
             if not any(c[2] != "unconn" for c in st["conns"]):
                 continue
         elif kind == "names":
-            k = r.randint(0, 3)
+            k = r.randint(0, 3) if r.random() < 0.9 else r.choice([10, 11, 12, 21])   # (two-digit input indices too)
             ins = [r.choice(nets) if nets and r.random() < 0.8 else new_net() for _ in range(k)]
             out = new_net() if r.random() < 0.7 else r.choice(nets)
             st = {"kind": "names", "ins": ins, "out": out,
